@@ -32,7 +32,8 @@ impl VList {
     pub uninterp spec fn pos(&self, i: VIndex) -> int;
     /// same handles at the same positions
     pub open spec fn same_shape(&self, o: &VList) -> bool {
-        forall|j: VIndex| (#[trigger] self.has(j) == o.has(j)) && (#[trigger] self.pos(j) == o.pos(j))
+        &&& forall|j: VIndex| #![trigger self.has(j)] #![trigger o.has(j)] self.has(j) == o.has(j)
+        &&& forall|j: VIndex| #![trigger self.pos(j)] #![trigger o.pos(j)] self.pos(j) == o.pos(j)
     }
 
     #[verifier::external_body]
